@@ -12,6 +12,7 @@ typedef std::vector<uint8_t> Bytes;
 // region monitor (hook H1): a layer that changes bytes of its inner layers while serialising is reported here
 static std::vector<std::pair<int, long> > OVERWRITES;
 static void region_hook(int type, long off) { OVERWRITES.push_back(std::make_pair(type, off)); }
+static void __attribute__((noinline)) dirty_stack(int v) { volatile uint8_t junk[24576]; for (size_t i = 0; i < sizeof(junk); ++i) junk[i] = (uint8_t)v; (void)junk[sizeof(junk) - 1]; }
 // kind names of the dissector; "" = a layer the dissector does not interpret (payload from there on)
 static const char* kind_of(PDU::PDUType t) {
     switch (t) {
@@ -114,6 +115,10 @@ static void scenario(const vh::Json& sc, vh::Out& out, vh::Rng& rng, const vh::A
     // a second serialisation of the same object gives the same bytes (sizes cached by the first one stay right)
     bool again_same = false; try { again_same = p->serialize() == b; } catch (std::exception&) {}
     w.kv("again_same", again_same);
+    // C12: "a copy or clone is deep and equal to its source ... same ... serialization" - with the stack filled with different
+    // garbage before each step, so that a member the implicit copy does not carry (padding in a header struct) shows
+    bool clone_same = false; try { dirty_stack(0xA5); std::unique_ptr<PDU> c(p->clone()); dirty_stack(0x5A); Bytes cb = c->serialize(); dirty_stack(0x3C); clone_same = cb == b; } catch (std::exception&) {}
+    w.kv("clone_same", clone_same);
     w.kv("thrown", thrown).kbytes("bytes", b).E(); out.event(w); out.end();
 }
 int main(int argc, char** argv) { return vh::run(argc, argv, scenario); }
